@@ -220,5 +220,6 @@ MANIFEST_ENTRY = {
                    'zero component (three coordinate planes, both signs, incl. the six coordinate directions). Generic axes (all components '
                    'non-zero): concrete axes only -- sign patterns/permutations of (2,3,6) and (1,4,8), 16 quick / 96 thorough -- with '
                    'angle and vector symbolic; a fully symbolic generic axis is beyond z3 NRA here (unknown at 120 s, DESIGN.md section 2) '
-                   'and is outside the claim. The zero axis is excluded (the statement says non-zero).'),
+                   'and is outside the claim. The zero axis is excluded (the statement says non-zero).'
+                   ' Every family is also run with the angle 1 (thorough: 2) whole turns away from its principal value, and for axes shorter than 2^-30 (tolerance claim 1e-6).'),
 }
